@@ -20,14 +20,14 @@ type vfFault struct {
 }
 
 type vfShut struct {
-	Label   string
-	Who     int // 0: A, 1: B, 2: both (crossed)
-	NMsgA   int
-	NMsgB   int
-	Faults  []vfFault
-	IL      bool
-	Late    bool // shutdown is called after half of the data moved
-	Base    [2]uint32
+	Label  string
+	Who    int // 0: A, 1: B, 2: both (crossed)
+	NMsgA  int
+	NMsgB  int
+	Faults []vfFault
+	IL     bool
+	Late   bool // shutdown is called after half of the data moved
+	Base   [2]uint32
 }
 
 func vfRunShut(t *testing.T, tr *vfTrace, x vfShut) bool {
